@@ -283,6 +283,7 @@ fn solver_level(rep: &Reporter, prop: &str) -> (crate::bnb::Agg, Vec<Value>, boo
             mk("KP-3", variants_kp(), false, None),
             mk("KP-4", variants_kp(), true, None),
             mk("KP-5", variants_kp(), true, Some(if th { 413_343 } else { 60_000 })),
+            mk("KPB-6", variants_kp(), true, None),
         ],
     };
     let deadline = Some(Instant::now() + Duration::from_secs(if th { 900 } else { 35 }));
